@@ -42,6 +42,8 @@ def elem_ident(E, v):
             v = E.read_ref(v)
         elif isinstance(v, VStruct) and v.name in ("Rc", "Box", "Arc") and len(v.fields) == 1:
             v = v.fields[0]
+        elif isinstance(v, VInt):
+            return v.t              # integers are their own identity (the embedding into U is not injective)
         else:
             return E.as_u(v)
 
@@ -126,7 +128,31 @@ def dispatch(E, c, tc, args):
             x = E.as_u(args[1])
             eq = z3.Function("abstract_eq", E.U, E.U, z3.BoolSort())
             return VBool(z3.Or([eq(E.as_u(it), x) for it in d.items]) if d.items else z3.BoolVal(False))
-    m3 = re.search(r"(?:^|::)(BTreeMap|HashMap|LinkedHashMap)::<.*>::(insert|get|contains_key|new)(?:::<.*>)?$", c, re.S)
+    me = re.search(r"(?:^|::)(BTreeMap|HashMap|LinkedHashMap)::<.*>::entry$", c, re.S)
+    if me and len(args) == 2:
+        r = ref_chain(E, args[0])
+        d = E.read_ref(r)
+        if isinstance(d, VSeq) and d.kind in ("map", "umap"):
+            return VStruct("#Entry", [VRef(r.cell, r.path), args[1]])
+    if re.search(r"Entry::<.*>::(or_default|or_insert_with|or_insert)(::<.*>)?$", c, re.S) and args and isinstance(args[0], VStruct) and args[0].name == "#Entry":
+        mref, key = args[0].fields
+        d = E.read_ref(mref)
+        kid = str(elem_ident(E, key))
+        for k, it in enumerate(d.items):
+            if str(elem_ident(E, it.fields[0])) == kid:
+                return VRef(mref.cell, mref.path + (("field", k), ("field", 1)))
+        if c.split("::")[-1].startswith("or_default"):
+            mt_ = re.search(r"Entry::<.*?, (.*)>::or_default$", c, re.S)
+            val = VSeq([], "vec") if mt_ and last_seg_(mt_.group(1)) == "Vec" else None
+            if val is None:
+                raise Unsupported("or_default for " + c)
+        elif "or_insert_with" in c:
+            val = E.call_value(args[1], [])
+        else:
+            val = args[1]
+        d.items.append(VStruct("()", [key, val]))
+        return VRef(mref.cell, mref.path + (("field", len(d.items) - 1), ("field", 1)))
+    m3 = re.search(r"(?:^|::)(BTreeMap|HashMap|LinkedHashMap)::<.*>::(insert|get|get_mut|contains_key|new)(?:::<.*>)?$", c, re.S)
     if m3:
         meth = m3.group(2)
         if meth == "new" and not args:
@@ -153,7 +179,7 @@ def dispatch(E, c, tc, args):
                 return some(old)
             if meth == "contains_key":
                 return VBool(pos is not None)
-            if meth == "get":
+            if meth in ("get", "get_mut"):
                 return some(VRef(r.cell, r.path + (("field", pos), ("field", 1)))) if pos is not None else NONE()
     if re.match(r"^<std::vec::Vec<.*> as (std::iter::)?Extend<.*>>::extend(::<.*>)?$", c, re.S) and len(args) == 2:
         r = ref_chain(E, args[0])
@@ -161,6 +187,64 @@ def dispatch(E, c, tc, args):
         src = deref(E, args[1])
         if isinstance(d, VSeq) and isinstance(src, VSeq):
             d.items += [clone(deref(E, x)) if isinstance(x, VRef) else x for x in src.items[getattr(src, "pos", 0):]]
+            return UNIT
+    if (re.search(r"<impl \[.*\]>::(get_mut|get)::<usize>$", c, re.S) or re.match(r"^std::vec::Vec::<.*>::(get_mut|get)::<usize>$", c, re.S)) and len(args) == 2:
+        r = ref_chain(E, args[0])
+        d = E.read_ref(r)
+        if isinstance(d, VSeq):
+            k = conc(E, args[1].t, "slice index")
+            return some(VRef(r.cell, r.path + (("field", k),))) if 0 <= k < len(d.items) else NONE()
+    if re.match(r"^(std|core)::mem::swap::<.*>$", c, re.S) and len(args) == 2:
+        ra, rb = ref_chain(E, args[0]), ref_chain(E, args[1])
+        va, vb = E.read_ref(ra), E.read_ref(rb)
+        E.write_at(ra.cell, ra.path, vb)
+        E.write_at(rb.cell, rb.path, va)
+        return UNIT
+    if re.match(r"^std::vec::Vec::<.*>::retain::<", c, re.S) and len(args) == 2:
+        r = ref_chain(E, args[0])
+        d = E.read_ref(r)
+        if isinstance(d, VSeq):
+            keep = []
+            for x in list(d.items):
+                b = E.call_value(args[1], [VRef(Cell(x, "retain_item"))])
+                if E.choose([b.t, z3.Not(b.t)], "retain") == 0:
+                    keep.append(x)
+            d.items[:] = keep
+            return UNIT
+    if re.match(r"^std::vec::Vec::<.*>::swap_remove$", c, re.S) and len(args) == 2:
+        r = ref_chain(E, args[0])
+        d = E.read_ref(r)
+        if isinstance(d, VSeq):
+            k = conc(E, args[1].t, "swap_remove index")
+            if k >= len(d.items):
+                raise PathAbort("panic", "swap_remove index out of bounds")
+            x = d.items[k]
+            d.items[k] = d.items[-1]
+            d.items.pop()
+            return x
+    if re.search(r"<impl \[.*\]>::sort_by_key::<", c, re.S) and len(args) == 2:
+        # stable insertion sort (ascending) on the keys the real key closure returns; every comparison is a solver-checked fork
+        r = ref_chain(E, args[0])
+        d = E.read_ref(r)
+        if isinstance(d, VSeq):
+            def key_of(x):
+                k = deref(E, E.call_value(args[1], [VRef(Cell(x, "key_item"))]))
+                while isinstance(k, VStruct) and len(k.fields) == 1:
+                    k = deref(E, k.fields[0])
+                if not isinstance(k, VInt):
+                    raise Unsupported("sort key %r" % (k,))
+                return k.t
+            out = []
+            for x in d.items:
+                kx = key_of(x)
+                k = len(out)
+                while k > 0:
+                    if E.choose([out[k - 1][0] > kx, out[k - 1][0] <= kx], "sort_by_key compare") == 0:
+                        k -= 1
+                    else:
+                        break
+                out.insert(k, (kx, x))
+            d.items[:] = [x for _, x in out]
             return UNIT
     if re.search(r"<impl \[.*\]>::sort_by::<", c, re.S) and len(args) == 2:
         # stable insertion sort driven by the real comparator closure (each comparison is executed; its outcome is a path decision)
@@ -181,7 +265,7 @@ def dispatch(E, c, tc, args):
                 out.insert(k, x)
             d.items[:] = out
             return UNIT
-    ms = re.search(r"(?:^|::)(BTreeSet|HashSet|LinkedHashSet)::<.*>::(insert|contains|new|len|is_empty|iter)(?:::<.*>)?$", c, re.S)
+    ms = re.search(r"(?:^|::)(BTreeSet|HashSet|LinkedHashSet)::<.*>::(insert|contains|new|len|is_empty|iter|remove)(?:::<.*>)?$", c, re.S)
     if ms:
         meth = ms.group(2)
         if meth == "new" and not args:
@@ -200,6 +284,12 @@ def dispatch(E, c, tc, args):
             present = z3.Or([elem_ident(E, it) == x for it in d.items]) if d.items else z3.BoolVal(False)
             if meth == "contains":
                 return VBool(present)
+            if meth == "remove":
+                for k, it in enumerate(d.items):
+                    if E.choose([elem_ident(E, it) == x, elem_ident(E, it) != x], "set remove") == 0:
+                        d.items.pop(k)
+                        return VBool(True)
+                return VBool(False)
             i = E.choose([z3.Not(present), present], "set insert")
             if i == 0:
                 d.items.append(args[1])
